@@ -310,3 +310,20 @@ PROPS["C08"] = dict(
                  "thread interleavings inside one cached client beyond the guard discipline"],
     witnesses={"_CachedStorage.create_new_trial:post/all/2": "witnesses.f2"},
 )
+
+PROPS["C16"] = dict(
+    modules=["contracts.pruners"],
+    claim="ThresholdPruner.prune returns True EXACTLY when the gate is open (a step was reported, step >= warm-up, first "
+          "report in its interval) and the checked value is NaN or outside [lower, upper]; NopPruner never prunes; "
+          "_is_first_in_interval_step equals its set-level specification (functools.reduce proved as a loop with invariant); "
+          "PercentilePruner/MedianPruner.prune: True implies >= max(1, n_startup) completed trials, step >= warm-up, first in "
+          "interval; and a trial whose every reported value is strictly better than everything the completed trials "
+          "reported at that step is never pruned (both directions). Discharged by z3 for all histories.",
+    note="numpy-lite library contracts (nanmin/nanmax/nanpercentile/asarray: order facts only); Study.get_trials assumed; "
+         "Patient/SuccessiveHalving/Hyperband partially covered, Wilcoxon not covered",
+    assumptions=LIB_ASSUMPTIONS + ["np.nanmin/nanmax return the value of an entry no non-NaN entry beats (NaN iff all NaN); "
+                                   "np.nanpercentile lies between the smallest and largest non-NaN entry",
+                                   "Study.get_trials(states=S) returns exactly the trials with state in S (AS)",
+                                   "functools.reduce(f, it, init) is the left fold (executed as a loop)"],
+    not_covered=["WilcoxonPruner (scipy)", "SuccessiveHalvingPruner.prune rung loop and Hyperband delegation (partly)"],
+)
